@@ -197,13 +197,23 @@ Definition find_initial (insupp : nat -> nat -> bool) (draws : list (list nat)) 
                   else find_more insupp d0 rest (tries - 1) 1
   end.
 
-(* the chain of one batch element.  [w i] = P(i)/Q(i) >= 0; proposal [c] is accepted iff
-   (log w c - log w last) > log u,  i.e.  u * w last < w c *)
-Fixpoint imh_chain (w : nat -> Q) (last : nat) (props : list nat) (us : list Q) : list nat :=
+(* the chain of one batch element.  [w i] = P(i)/Q(i) >= 0 is the exponential of the log-ratio
+   log P(i) - log Q(i) the code keeps; the ratio of the current state is [Some w] or [None] = NaN.
+     accept    = (cur_ratio - last_ratio) > log u        <->  u * w_last < w_cur   (false when NaN)
+     cur_ratio = accept * cur_ratio + (~accept) * last_ratio
+   so rejecting a proposal of zero target density (cur_ratio = -inf) leaves 0 * -inf = NaN as the
+   stored ratio, after which nothing is accepted any more - this is what the code does. *)
+Fixpoint imh_chain (w : nat -> Q) (last : nat) (lastw : option Q) (props : list nat) (us : list Q)
+  : list nat :=
   match props, us with
   | c :: ps, u :: us' =>
-      let nxt := if Qle_bool (w c) (u * w last) then last else c in
-      nxt :: imh_chain w nxt ps us'
+      let acc := match lastw with
+                 | None => false
+                 | Some wl => negb (Qle_bool (w c) (u * wl))
+                 end in
+      let nxt := if acc then c else last in
+      let nw := if acc then Some (w c) else if Qle_bool (w c) 0 then None else lastw in
+      nxt :: imh_chain w nxt nw ps us'
   | _, _ => []
   end.
 
@@ -213,7 +223,7 @@ Definition imh_value (f : nat -> Q) (chain : list nat) (burn : nat) : Q :=
 
 (* whole call for one batch element j: start (given or found), then the chain *)
 Definition imh_element (w : nat -> Q) (f : nat -> Q) (init : nat) (props : list nat) (us : list Q)
-  (burn : nat) : Q := imh_value f (imh_chain w init props us) burn.
+  (burn : nat) : Q := imh_value f (imh_chain w init (Some (w init)) props us) burn.
 
 (* ------------------------------------------------------------------------------------------ *)
 (* correspondence entry points for the estimators                                               *)
